@@ -83,7 +83,8 @@ impl HttpListener {
                 }
                 Err(e) => {
                     error!("{} accept error: {} \ncause: {:?}", self.name, e, e.cause);
-                    return;
+                    // e.g. out of file descriptors: the listener must survive, try again shortly
+                    tokio::time::sleep(std::time::Duration::from_millis(100)).await;
                 }
             }
         }
